@@ -711,7 +711,7 @@ class SsbGraphMinimizer:
                             continue
                         if (
                             isinstance(v_after["op"], SsbForeignLabel)
-                            or v_after["op"].id == 0
+                            or v_after.index == 0
                             or out_edges[0]["loop"]
                             or (isinstance(v_after["op"], SsbLabel) and len(v_after["op"].markers) > 0)
                         ):
@@ -741,7 +741,7 @@ class SsbGraphMinimizer:
                     elif len(in_edges) == 1:
                         assert len(out_edges) == 1
                         if (
-                            v["op"].id == 0
+                            v.index == 0
                             or in_edges[0]["loop"]
                             or self._is_call_edge(g, in_edges[0])
                             or (
